@@ -39,6 +39,15 @@ TEMPLATES: Dict[str, Tuple[str, str]] = {
     "JR_P2": ("1202", "JR    +02"),
     "CALL_1000": ("040010", "CALL  1000"),
     "MV_IMR_80": ("32ccfb80", "MV    (IMR), 80"),
+    # parking constructs (idle loops): a jump that lands on itself / a few instructions back
+    "JR_M2": ("1302", "JR    -02"),
+    "JRZ_M2": ("1902", "JRZ   -02"),
+    "JRNZ_M2": ("1b02", "JRNZ  -02"),
+    "JRC_M2": ("1d02", "JRC   -02"),
+    "JRNC_M2": ("1f02", "JRNC  -02"),
+    "JR_M3": ("1303", "JR    -03"),
+    "JP_1234": ("023412", "JP    1234"),
+    "JPF_51234": ("03341205", "JPF   51234"),
 }
 
 BASES = (0x00100, 0x08000, 0x30000, 0x7F000, 0xC0000, 0xF0000)
@@ -66,7 +75,40 @@ def gen_program(st: Stream, pool: List[bytes]) -> Tuple[Dict[str, Any], List[str
     sub_at: Optional[int] = None
     profile = st.below(4)  # 0: mostly templates, 1: mostly random encodings, 2/3: mixed
     used = set()
-    for _ in range(n_items):
+    # A program may *park*: spin on a self-targeting jump or run an endless short loop (the usual way firmware
+    # waits for an interrupt), so that timer ticks and interrupt deliveries arrive while the PC does not advance.
+    # (half of the parking programs park within their first items so that the spin is reached before a HALT/OFF/
+    # wild jump of the generated prologue and lasts for most of the run)
+    park_at = -1
+    if st.chance(1, 3):
+        park_at = st.below(min(n_items, 4)) if st.chance(1, 2) else st.below(n_items)
+    starts: List[int] = []
+    for item in range(n_items):
+        starts.append(len(body))
+        if item == park_at:
+            kind = st.below(8)
+            here = base + len(body)
+            if kind <= 1:
+                body += _t("JR_M2")
+                used.add("park:self-jump")
+            elif kind == 2:
+                body += bytes([0x02, here & 0xFF, (here >> 8) & 0xFF])  # JP <self> (same 64 KiB page)
+                used.add("park:self-jump")
+            elif kind == 3:
+                body += bytes([0x03, here & 0xFF, (here >> 8) & 0xFF, (here >> 16) & 0xFF])  # JPF <self>
+                used.add("park:self-jump")
+            elif kind == 4:
+                body += _t(st.choice(("JRZ_M2", "JRNZ_M2", "JRC_M2", "JRNC_M2")))  # spins or falls through (F)
+                used.add("park:conditional-self-jump")
+            elif kind == 5:
+                body += _t("NOP") + _t("JR_M3")
+                used.add("park:loop")
+            else:
+                back = [s0 for s0 in starts if len(body) + 2 - s0 <= 0xFF]
+                s0 = st.choice(back[-6:])
+                body += bytes([0x13, len(body) + 2 - s0])  # JR back to the start of an earlier item
+                used.add("park:loop")
+            continue
         r = st.below(100)
         if profile == 1:
             r = r % 40 if st.chance(3, 4) else r
